@@ -42,7 +42,8 @@ class Boom(Exception):
 
 # Python values behind the integer codes used in cases: falsy / None results must travel through the pool
 # like any other value (a tile creator returns None for a blank tile).
-SPECIAL = {-1: None, -2: '', -3: False, -4: (), -5: 0.0, -6: []}
+SPECIAL = {-1: None, -2: '', -3: False, -4: (), -5: 0.0, -6: [], -7: (3, 4, 5), -8: ('a', None, 'c')}
+# -7 / -8: ordinary 3-tuples (a tile coordinate): same shape as sys.exc_info() but no exception inside
 
 
 def encode_value(v):
@@ -66,6 +67,10 @@ def decode_value(r):
         return -5
     if r == [] and isinstance(r, list):
         return -6
+    if isinstance(r, tuple) and r == (3, 4, 5):
+        return -7
+    if isinstance(r, tuple) and r == ('a', None, 'c'):
+        return -8
     return None
 
 
@@ -318,7 +323,7 @@ def gen_cases(ctx):
         ps = rng.choice([0, 1, 2, 2, 3, 4, 6])
         nfail = rng.choice([0, 0, 1, 1, 2, n])
         fails = set(rng.sample(range(n), min(nfail, n)))
-        items = [('exc', 100 + i) if i in fails else ('ok', rng.randrange(-3, 50)) for i in range(n)]
+        items = [('exc', 100 + i) if i in fails else ('ok', rng.randrange(-8, 50)) for i in range(n)]
         arrival = gen_arrival(rng, n, max(ps, 1), rng.choice(['random', 'random', 'reverse', 'identity']))
         cases.append((rng.choice(apis), ps, rng.random() < 0.5, items, arrival))
     return cases
@@ -332,7 +337,7 @@ def run(ctx):
     for _ in range(ctx.n(14, 80)):
         n = rng.choice([2, 3, 4, 6])
         ps = rng.choice([2, 3, 4, 6])
-        items = [('ok', rng.choice([-1, -2, -3, 0, 5, 17, 40 + i])) for i in range(n)]
+        items = [('ok', rng.choice([-1, -2, -3, -7, -8, 0, 5, 17, 40 + i])) for i in range(n)]
         if rng.random() < 0.5:
             # a slow failure: its result reaches the queue only in the second drain phase (after join())
             items[rng.randrange(n)] = ('exc', 300 + rng.randrange(9))
